@@ -44,6 +44,7 @@ type kapCase struct {
 	KLen    int       `json:"klen"`
 	Confirm bool      `json:"confirm"` // with the optional confirmation values
 	Peer    uint64    `json:"peer"`    // seed of the peer's ephemeral scalar
+	PCurve  int       `json:"pcurve"`  // sm2: Curve field of the peer's R_A / R_B struct (peerCurveNames)
 	Steps   []kapStep `json:"steps"`
 }
 
@@ -94,7 +95,7 @@ func sm2Side(c *kapCase) *kapSide {
 		panic(fmt.Sprintf("c12: NewKeyExchange: %v", err))
 	}
 	toPub := func(p ref.Point) *ecdsa.PublicKey {
-		return &ecdsa.PublicKey{Curve: sm2.P256(), X: new(big.Int).Set(p.X), Y: new(big.Int).Set(p.Y)}
+		return &ecdsa.PublicKey{Curve: peerCurve(c.PCurve), X: new(big.Int).Set(p.X), Y: new(big.Int).Set(p.Y)}
 	}
 	peerR := func(alt bool) ref.Point { return baseMul(curve, peerScalar(c, curve.N, alt)) }
 	s := &kapSide{n: curve.N}
@@ -341,6 +342,9 @@ func checkKap(c kapCase, r *h.Rec) error {
 		side = sm9Side(&c)
 	}
 	r.Label(name + "/protocol")
+	if c.Proto == "sm2" {
+		r.Label("%s/protocol/peer-struct-curve=%s", name, peerCurveNames[c.PCurve%len(peerCurveNames)])
+	}
 	if c.Confirm {
 		r.Label(name + "/protocol/with-confirmation-values")
 	}
@@ -458,6 +462,9 @@ func genKap(proto string) func(*rapid.T) kapCase {
 		c.KLen = rapid.SampledFrom([]int{16, 32, 48}).Draw(t, "klen")
 		c.Confirm = rapid.Bool().Draw(t, "confirm")
 		c.Peer = rapid.Uint64().Draw(t, "peer")
+		if proto == "sm2" && rapid.Bool().Draw(t, "foreignPeerStruct") {
+			c.PCurve = rapid.IntRange(1, len(peerCurveNames)-1).Draw(t, "pcurve")
+		}
 		for _, k := range rapid.SampledFrom(kapPatterns).Draw(t, "pattern") {
 			st := mkKapStep(n, byte(k), rapid.IntRange(0, 2).Draw(t, "failKind"), rapid.Uint64().Draw(t, "seed"),
 				rapid.IntRange(1, numFaultModes).Draw(t, "mode"), drawChunk(t), rapid.IntRange(0, 3).Draw(t, "flags"), rapid.Bool().Draw(t, "alt"))
@@ -487,6 +494,9 @@ func sweepKap(t *testing.T, proto string) {
 					for mode := 1; mode <= numFaultModes; mode++ {
 						i++
 						c := kapCase{Proto: proto, Respond: respond, Key: int(i % 6), KLen: 16 + 16*int(i%3), Confirm: confirm, Peer: seed + i}
+						if proto == "sm2" {
+							c.PCurve = int(i % uint64(len(peerCurveNames)))
+						}
 						c.Steps = []kapStep{
 							mkKapStep(n, 'S', 0, seed+3*i, 0, 0, 0, false),
 							mkKapStep(n, 'F', failKind, seed+3*i+1, mode, 0, int(i%4), i%2 == 1),
